@@ -17,7 +17,7 @@ var c07Dims = [][]string{
 	{"", "@@"},
 	{"", "important"},
 	{"", "domain=a.com", "domain=~a.com"},
-	{"", "script", "script,image", "~script", "script,image,stylesheet,subdocument,object,xmlhttprequest,media,font,websocket,ping,other"},
+	{"", "script", "script,image", "~script", "script,image,stylesheet,subdocument,object,xmlhttprequest,media,font,websocket,ping,other", "~other", "subdocument,~ping"},
 	{"", "third-party", "match-case", "~third-party"},
 	{"", "dnstype=A", "dnstype=~A"},
 	{"", "ctag=x", "ctag=~x"},
@@ -120,7 +120,7 @@ func c07Parse(texts []string) ([]*rules.NetworkRule, *Violation) {
 	for i, s := range texts {
 		r, err := rules.NewNetworkRule(s, 1)
 		if err != nil {
-			return nil, viol("C07", "C07:parse", "rule %q rejected: %v", s, err)
+			return nil, viol("C07", "C07:harness", "rule %q rejected: %v", s, err)
 		}
 		out[i] = r
 	}
